@@ -430,4 +430,28 @@ CHECKS = {
             {"name": "drawn", "test": "TestDrawn", "quick": 40, "thorough": 150, "shards": 16},
         ],
     },
+    "C16": {
+        "pkg": "c16",
+        "level": "exploration",
+        "level_text": ("Generated byte-pipe scenarios over every built-in transport against real peers: standard ssh (shell with pty, "
+                       "netconf subsystem) and system ssh (/usr/bin/ssh) against an in-process x/crypto/ssh server, telnet against a "
+                       "loopback TCP server, and the system transport's pty against a stand-in peer process that puts the tty into raw "
+                       "mode. Payloads of sizes around and above the read size (1, n-1, n, n+1, 3n, 64 kB) over every byte value the "
+                       "medium carries transparently, written in generated chunkings, in generated orders and concurrently in both "
+                       "directions; pseudo-random contents are a function of a seed computable on both ends, so each end verifies what "
+                       "it received byte by byte. Then the reader is parked and the transport is closed by the client or the peer goes "
+                       "away: the parked read must return within 5 s. A second sub-check runs CLI and NETCONF histories end to end over "
+                       "each applicable transport (incl. in-channel password login for telnet/system) and compares with what an ideal "
+                       "pipe gives."),
+        "level_note": ("Trusted: in-process peers, OpenSSH client, kernel pty/TCP. Wall clock with wide margins (a session that is not up in "
+                       "15 s is infeasible). system-ssh-shell payloads are printable ASCII + LF without '~' (ssh escape character)."),
+        "technique": "property-based testing (rapid): seeded payload round trips over real transports with both-end verification; differential end-to-end vs ideal pipe",
+        "rule": ("pipe: flavour x read size x 1-5 transfer steps (direction, size, chunking) x duplex x closer; e2e: flavour x history. "
+                 "Non-trivial: every case (each includes close-while-parked; most include a payload larger than the read size). Distinct = sha1(case)."),
+        "assumptions": ["telnet payloads exclude 0xFF", "NETCONF over the system transport: request lines <= 3500 bytes (known finding system-netconf-long-line)"],
+        "subs": [
+            {"name": "pipe", "test": "TestPipe", "quick": 60, "thorough": 250, "shards": 16},
+            {"name": "e2e", "test": "TestEndToEnd", "quick": 40, "thorough": 200, "shards": 16},
+        ],
+    },
 }
